@@ -738,6 +738,19 @@ package meta
 //@ func deleteMetadata
 //@   property C01
 //@   ensures [missing_entry_still_loses_its_garbage_mark] !haveObject ==> garbageMarkLookedUp()
+// (C03) Removal takes away what the put wrote: for every attribute of the object its value is
+// offered to the same integer parser the put uses, so that the integer index entry - which a
+// numeric search walks - goes whenever there is one. An entry left behind keeps the removed
+// object in numeric search results (nothing else is known about its ID any more).
+//@ ghost field valuesOfferedToTheIntegerParser(x int) int
+//@ callrule c03_delete_offers_every_value_to_the_integer_parser in deleteMetadata
+//@   property C03 C01
+//@   callee metabase.parseInt
+//@   assigns valuesOfferedToTheIntegerParser
+//@   defines valuesOfferedToTheIntegerParser(0) == old(valuesOfferedToTheIntegerParser(0)) + 1
+//@ func deleteMetadata
+//@   property C03 C01
+//@   loop 1 iteration [integer_index_entry_considered_for_every_attribute] valuesOfferedToTheIntegerParser(0) == old(valuesOfferedToTheIntegerParser(0)) + 1
 
 // Reviving takes the object's garbage mark away, whichever way it had been removed (plain
 // mark or tombstone - a tombstoned object carries the mark as well): every successful revival
